@@ -76,6 +76,82 @@ def dominating_guards(stmt, func_body):
     return atomise(out)
 
 
+def guards_at(node, func_body):
+    """What holds when the expression `node` is evaluated: the operands to its left in `a && node` (hold) / `a || node` (fail),
+    then the guards that dominate the statement it belongs to. [(cond, polarity, kind)] in atomic form."""
+    out = []
+    cur = node
+    stmt = node
+    while cur.parent is not None and cur is not func_body:
+        p = cur.parent
+        b = p.bin if p.kind in ('BinaryOperator', 'CXXOperatorCallExpr') else None
+        if b is not None and b[0] in ('&&', '||'):
+            inside_rhs = any(x is cur for x in b[2].walk())
+            if inside_rhs:
+                out.append((b[1], b[0] == '&&', 'short-circuit'))
+        if p.kind == 'CompoundStmt' or (p.kind == 'IfStmt' and cur in if_parts(p)[1:]) or (p.kind == 'WhileStmt' and cur is p.kids[-1]):
+            stmt = cur
+            break
+        cur = p
+        stmt = cur
+    return atomise(out) + dominating_guards(stmt, func_body)
+
+
+def failure_returns_false(call, func_body):
+    """Is a false result of `call` turned into `return false` (directly: `if (!call) return false;`, or as one operand of the
+    condition: `if (a && !call) return false;`, or by being the returned value)?"""
+    cur = call
+    while cur.parent is not None and cur is not func_body:
+        p = cur.parent
+        if p.kind == 'ReturnStmt':
+            v = p.kids[0].strip() if p.kids else None
+            return v is not None and (v is call.strip() or v is call)
+        if p.kind == 'IfStmt' and any(x is call for x in if_parts(p)[0].walk()):
+            c, t, e = if_parts(p)
+            atoms = atomise([(c, True, 'cond')])
+            return returns_false(t) and any(pol is False and (a.strip() is call.strip() or a is call) for a, pol, _ in atoms)
+        cur = p
+    return False
+
+
+def single_assignment_locals(body):
+    """{name: initialiser node} of the locals of a function body that are initialised where they are declared and never
+    assigned, incremented or have their address taken afterwards (whether a callee changes them through a reference parameter
+    is not visible here: use only where the local is handed over by value)."""
+    out = {}
+    for d in body.find('VarDecl'):
+        if d.kids and d.j.get('init') is not None and d.parent is not None and d.parent.kind == 'DeclStmt':
+            out[d.name] = d.kids[-1]
+    for n in body.walk():
+        tgt = None
+        if n.kind in ('BinaryOperator', 'CompoundAssignOperator') and n.opcode in ('=', '+=', '-=', '*=', '/=', '|=', '&=', '^=', '<<=', '>>=') and n.kids:
+            tgt = n.kids[0]
+        elif n.kind == 'UnaryOperator' and n.opcode in ('++', '--', '&') and n.kids:
+            tgt = n.kids[0]
+        if tgt is not None:
+            t = tgt
+            while t.kind in ('ImplicitCastExpr', 'ParenExpr') and t.kids:
+                t = t.kids[0]
+            if t.kind == 'DeclRefExpr':
+                out.pop(t.ref, None)
+    return out
+
+
+def nstmts(body, loose=None):
+    """Normal-form texts of the statements of a body; declarations of locals that `ntext` substitutes are left out."""
+    out = []
+    for s_ in stmts_of(body):
+        if s_.kind == 'DeclStmt' and s_.kids and all(k.kind == 'VarDecl' for k in s_.kids):
+            names = [k.name for k in s_.kids]
+            probe = [r for r in body.find('DeclRefExpr') if r.ref in names]
+            if probe and all(r.const_local_init(refs=True) is not None or (loose is not None and r.ref in loose) for r in probe):
+                continue
+            if not probe and all((k.type or '').startswith('const ') for k in s_.kids):
+                continue
+        out.append(s_.front.ntext(s_, 0, loose).rstrip(';'))
+    return out
+
+
 def atomise(conds):
     """`a || b` failing means both fail; `a && b` holding means both hold; `!a` holding means a fails."""
     out = []
@@ -263,6 +339,11 @@ class LaneEval(object):
 
     def ev(self, n):
         n0 = n
+        while n0.kind in ('ImplicitCastExpr', 'ParenExpr') and n0.kids:
+            n0 = n0.kids[0]
+        if n0.kind == 'DeclRefExpr' and n0.ref in self.env:
+            # a local evaluated where it was declared (not re-evaluated from its initialiser at the point of use)
+            return lane_resize(self.env[n0.ref], type_width(n0.type) or 8)
         n = n.strip()
         w = type_width(n.type) or 8
         if n.kind == 'IntegerLiteral':
